@@ -1,0 +1,105 @@
+// Copyright 2020-2025 Buf Technologies, Inc.
+//
+// Licensed under the Apache License, Version 2.0 (the "License");
+// you may not use this file except in compliance with the License.
+// You may obtain a copy of the License at
+//
+//      http://www.apache.org/licenses/LICENSE-2.0
+//
+// Unless required by applicable law or agreed to in writing, software
+// distributed under the License is distributed on an "AS IS" BASIS,
+// WITHOUT WARRANTIES OR CONDITIONS OF ANY KIND, either express or implied.
+// See the License for the specific language governing permissions and
+// limitations under the License.
+
+//go:build verif
+
+package bufgen
+
+// Contracts for the gocv verifier (see /verif/DESIGN.md). Comment-only.
+// Spec functions, ghost variables and trusted interface contracts: /verif/specs/C17_writer.spec (prefix v_).
+//
+//@ trusted pure interface bufconfig.GeneratePluginConfig
+//
+// validateResponses: one non-nil response per plugin config, and no output file produced twice.
+// "The same output path" is taken as the response writer takes it: the same output LOCATION (v_sameOut: the bucket
+// cache of bufprotopluginos is keyed by filepath.Abs(out)) and the same name within it (v_sameName: buckets key by
+// the normalized name). no-duplicate-output FAILS on the tree (kept, reported): the check compares
+// filepath.Join(out, name) textually, so `out: gen` and `out: /abs/path/of/gen` are different for the check and the
+// same bucket for the writer. It discharges when validateResponses hands filepath.Abs(out) to NewPluginResponse.
+//@ func validateResponses(responses, pluginConfigs) (err)
+//@   property C17
+//@   use v_join-normalized-name
+//@   reveal v_sameOut, v_sameName
+//@   ensures one-response-per-plugin: err == nil ==> len(responses) == len(pluginConfigs) && (forall i int :: 0 <= i && i < len(responses) ==> responses[i] != nil)
+//@   ensures no-duplicate-output: err == nil ==> (forall i int, x int, j int, y int :: 0 <= i && i < len(responses) && 0 <= x && x < len(responses[i].File) && 0 <= j && j < len(responses) && 0 <= y && y < len(responses[j].File) && (i < j || (i == j && x < y)) && responses[i].File[x].GetInsertionPoint() == "" && responses[j].File[y].GetInsertionPoint() == "" && v_sameOut(pluginConfigs[i].Out(), pluginConfigs[j].Out()) ==> !v_sameName(responses[i].File[x].GetName(), responses[j].File[y].GetName()))
+//@   loop 0 invariant len(pluginResponses) == $i
+//@   loop 0 invariant forall k int :: 0 <= k && k < $i ==> responses[k] != nil && pluginResponses[k] != nil && pluginResponses[k].Response == responses[k] && pluginResponses[k].PluginOut == pluginConfigs[k].Out()
+//@   canary ensures err != nil
+//@   canary ensures err == nil
+//
+// A read-only check of the responses' feature bits; declared only so that the call has a frame. TRUSTED because the
+// engine cannot run its body: "contract of slices.Sort: ensures ... == on different sorts Int vs Ref in
+// (old(x)[j] == x[i])" (slices.Sort instantiated at the enum types pluginpb.CodeGeneratorResponse_Feature /
+// descriptorpb.Edition, features.go:144/155/182).
+//@ trusted func checkRequiredFeatures(logger, required, responses, configs) (err)
+//@   modifies heap
+//
+//@ func (g *generator) execPlugins(ctx, container, pluginConfigs, image, includeImportsOverride, includeWellKnownTypesOverride) (r, err)
+//@   property C17
+//@   modifies heap, ghost.fail, ghost.wfail, ghost.sinkPaths, ghost.sinkBuckets, ghost.lastPutOptions
+//@   ensures one-response-per-plugin: err == nil ==> len(r) == len(pluginConfigs) && (forall i int :: 0 <= i && i < len(r) ==> r[i] != nil)
+//@   ensures reported: ghost.fail && !old(ghost.fail) ==> err != nil
+//@   ensures write-reported: ghost.wfail && !old(ghost.wfail) ==> err != nil
+//
+// generateCode: the plugins run first; if any of them fails (or the responses do not validate) generateCode returns
+// the error and the response writer is never created: nothing is added, nothing is flushed. Otherwise the responses
+// are added in CONFIGURATION order (the k-th AddResponse carries the k-th config's response and its location
+// v_outOf(--output, out)), and Close is called exactly once, after the last AddResponse; a failing AddResponse
+// aborts without Close, so nothing reaches the disk.
+//@ func (g *generator) generateCode(ctx, container, inputImage, baseOutDir, pluginConfigs, includeImportsOverride, includeWellKnownTypesOverride) (err)
+//@   property C17
+//@   modifies heap, ghost.fail, ghost.wfail, ghost.sinkPaths, ghost.sinkBuckets, ghost.lastPutOptions, ghost.buf, ghost.v_scanPos, ghost.v_match, ghost.v_ipRead, ghost.v_wrCalls, ghost.j_osStat, ghost.j_osWrite, ghost.v_statErr, ghost.v_addN, ghost.v_addResp, ghost.v_addOut, ghost.cbCalls, ghost.cbArgs, ghost.cbArg0, ghost.cbArg1, ghost.cbArg2, ghost.cbArg3, ghost.v_closeCalls, ghost.v_addNAtClose, ghost.v_responses, ghost.v_execErr
+//@   ghost after "responses, err := g.execPlugins(" v_responses := responses
+//@   ghost after "responses, err := g.execPlugins(" v_execErr := err
+//@   reveal v_outOf
+//@   ensures failed-plugin-nothing-written: ghost.v_execErr != nil ==> err != nil && ghost.v_addN == old(ghost.v_addN) && ghost.v_closeCalls == old(ghost.v_closeCalls) && ghost.j_osWrite == old(ghost.j_osWrite) && ghost.v_wrCalls == old(ghost.v_wrCalls)
+//@   ensures all-added-in-order: err == nil ==> ghost.v_addN == old(ghost.v_addN) + len(pluginConfigs) && (forall k int :: 0 <= k && k < len(pluginConfigs) ==> ghost.v_addResp[old(ghost.v_addN) + k] == ghost.v_responses[k] && ghost.v_addOut[old(ghost.v_addN) + k] == v_outOf(baseOutDir, pluginConfigs[k].Out()))
+//@   ensures prefix-added-in-order: forall k int :: 0 <= k && k < ghost.v_addN - old(ghost.v_addN) ==> k < len(pluginConfigs) && ghost.v_addResp[old(ghost.v_addN) + k] == ghost.v_responses[k] && ghost.v_addOut[old(ghost.v_addN) + k] == v_outOf(baseOutDir, pluginConfigs[k].Out())
+//@   ensures flushed-once-after-all: err == nil ==> ghost.v_closeCalls == old(ghost.v_closeCalls) + 1 && ghost.v_addNAtClose == ghost.v_addN
+//@   ensures failed-add-not-flushed: err != nil && ghost.v_closeCalls != old(ghost.v_closeCalls) ==> ghost.v_closeCalls == old(ghost.v_closeCalls) + 1 && ghost.v_addN == old(ghost.v_addN) + len(pluginConfigs) && ghost.v_addNAtClose == ghost.v_addN
+//@   ensures reported: ghost.fail && !old(ghost.fail) ==> err != nil
+//@   ensures write-reported: ghost.wfail && !old(ghost.wfail) ==> err != nil
+//@   loop 0 invariant ghost.v_addN == $entry(ghost.v_addN) + $i && ghost.v_closeCalls == $entry(ghost.v_closeCalls)
+//@   loop 0 invariant forall k int :: 0 <= k && k < $i ==> ghost.v_addResp[$entry(ghost.v_addN) + k] == responses[k] && ghost.v_addOut[$entry(ghost.v_addN) + k] == v_outOf(baseOutDir, pluginConfigs[k].Out())
+//@   loop 0 invariant ghost.fail ==> $entry(ghost.fail)
+//@   loop 0 invariant ghost.wfail ==> $entry(ghost.wfail)
+//@   canary ensures err != nil
+//@   canary ensures err == nil
+//
+// deleteOuts (--clean): the cleaner is handed, in configuration order, exactly the locations the response writer will
+// be handed by generateCode (the same path-wise join of --output with each plugin's out): what is cleaned is what is
+// generated into.
+//@ func (g *generator) deleteOuts(ctx, baseOutDir, pluginConfigs) (err)
+//@   property C17 C13
+//@   modifies ghost.fail, ghost.wfail, ghost.sinkPaths, ghost.sinkBuckets, ghost.j_osStat, ghost.v_osRoots, ghost.v_cleanedOuts, ghost.v_cleanAtAddN, ghost.v_cleanCalls
+//@   reveal v_outOf
+//@   ensures cleaned-once-now: ghost.v_cleanCalls == old(ghost.v_cleanCalls) + 1 && ghost.v_cleanAtAddN == ghost.v_addN
+//@   ensures declared-locations: len(ghost.v_cleanedOuts) == len(pluginConfigs) && (forall k int :: 0 <= k && k < len(pluginConfigs) ==> ghost.v_cleanedOuts[k] == v_outOf(baseOutDir, pluginConfigs[k].Out()))
+//@   closure 0 ensures r == v_outOf(baseOutDir, pluginConfig.Out())
+//
+// Generate: --clean runs (once) BEFORE the first response of this call is added, and a failing clean aborts the
+// generation ("This must be done before any interaction with ResponseWriters, as multiple plugins may output to a
+// single location").
+//@ trusted pure interface bufconfig.GenerateConfig
+//@ trusted pure interface bufconfig.GenerateManagedConfig
+//@ inline func newGenerateOptions
+//@ func (g *generator) Generate(ctx, container, config, images, options) (err)
+//@   property C17
+//@   modifies heap, ghost.fail, ghost.wfail, ghost.sinkPaths, ghost.sinkBuckets, ghost.lastPutOptions, ghost.buf, ghost.v_scanPos, ghost.v_match, ghost.v_ipRead, ghost.v_wrCalls, ghost.j_osStat, ghost.j_osWrite, ghost.v_statErr, ghost.v_addN, ghost.v_addResp, ghost.v_addOut, ghost.cbCalls, ghost.cbArgs, ghost.cbArg0, ghost.cbArg1, ghost.cbArg2, ghost.cbArg3, ghost.v_closeCalls, ghost.v_addNAtClose, ghost.v_responses, ghost.v_execErr, ghost.v_osRoots, ghost.v_cleanedOuts, ghost.v_cleanAtAddN, ghost.v_cleanCalls
+//@   ensures clean-at-most-once: ghost.v_cleanCalls == old(ghost.v_cleanCalls) || ghost.v_cleanCalls == old(ghost.v_cleanCalls) + 1
+//@   ensures clean-before-generate: ghost.v_cleanCalls != old(ghost.v_cleanCalls) ==> ghost.v_cleanAtAddN == old(ghost.v_addN)
+// (Whether --clean is in force - config.CleanPluginOuts() unless overridden by an option - is not claimed: the option
+// record lives on the heap and bufimagemodify.Modify, called in between, has no frame the engine could use.)
+//@   loop 1 invariant ghost.v_cleanCalls == old(ghost.v_cleanCalls) && ghost.v_addN == old(ghost.v_addN)
+//@   loop 2 invariant ghost.v_cleanCalls == $entry(ghost.v_cleanCalls) && ghost.v_cleanAtAddN == $entry(ghost.v_cleanAtAddN)
